@@ -504,8 +504,8 @@ def main(run: core.Run) -> None:
 
     # corpus first (known findings' witnesses + minimised past disagreements)
     corpus = [json.loads(l) for l in (core.VERIF / "harness" / "corpus_c11.jsonl").read_text().splitlines() if l.strip()]
-    n_graph = run.size(700, 12000)
-    n_eager_extra = run.size(1500, 30000)
+    n_graph = run.size(700, 9000)
+    n_eager_extra = run.size(1500, 20000)
     drift = core.fingerprint_drift(
         "C11", "onnxscript/_internal/converter.py", ["Converter._translate_subscript_expr"]
     ) + core.fingerprint_drift("C11", "onnxscript/tensor.py", ["Tensor.__getitem__"])
@@ -542,8 +542,8 @@ def main(run: core.Run) -> None:
     batch(pats)
     stats["kind_patterns"] = len(pats)
     mixed_ranks = (3,) if run.tier == "quick" else (3, 3, 4, 2)
-    batch([gen_mixed(run.rng, mixed_ranks) for _ in range(run.size(250, 3000))])
-    batch([gen_mixed(run.rng, mixed_ranks) for _ in range(run.size(500, 8000))], do_graph=False)
+    batch([gen_mixed(run.rng, mixed_ranks) for _ in range(run.size(250, 2500))])
+    batch([gen_mixed(run.rng, mixed_ranks) for _ in range(run.size(500, 5000))], do_graph=False)
 
     for c in list(seen)[:6]:
         run.sample(c)
